@@ -109,6 +109,22 @@ pub const LEAVES: &[Leaf] = &[
     leaf("V=x fslash"),
     leaf("x=$(./nonexistent_cmd_c18)"),
     leaf("./nonexistent_cmd_c18 | simcat"),
+    leaf("read v <<< \"here string\""),
+    leaf("trap 'true' RETURN; fok; trap - RETURN"),
+    leaf("trap 'true' DEBUG; true; trap - DEBUG"),
+    leaf("declare -A m18=([a]=1 [b]=2); unset m18"),
+    leaf("fnameref"),
+    leaf("fdeep 25"),
+    leaf("eval 'fev() { return 3; }; fev'"),
+    leaf(". ./good.sh a b"),
+    leaf("( set -e; false; echo unreachable )"),
+    leaf("x=$(x=$(x=$(echo deep)))"),
+    leaf("{ { simseq 2 | simcat; } | simcat; } > /dev/null"),
+    leaf("for w in $(simseq 3); do :; done"),
+    leaf("while read l; do :; done < <(simseq 3)"),
+    leaf("printf -v pv '%s' x; unset pv"),
+    leaf("getopts ab: o -a; OPTIND=1"),
+    leaf("wait; jobs > /dev/null"),
     leaf("xtrue"),
     leaf("xexit 3"),
     leaf("V=x xexit 2"),
@@ -135,6 +151,7 @@ fcat() { simcat; }\n\
 flocal() { local a=1 b=2; nosuchcmd_c18; }\n\
 fdeep() { if [ $1 -gt 0 ]; then V=$1 fdeep $(($1-1)); else return 5; fi; }\n\
 fslash() { ./nonexistent_cmd_c18; ./noexec.txt; }\n\
+fnameref() { local -n ref=RO; local a=1; nosuchcmd_c18; }\n\
 fredir_bad() { echo x; } > /nonexistent_dir_c18/out\n\
 fredir_in() { simcat; } < missing_file\n\
 fredir_ok() { echo x; } > out3.txt\n\
